@@ -152,6 +152,14 @@ def run(ctx):
         r2.violation("to_cache copies pkt.data", "the cached copy no longer holds exactly pkt.data: the counter in cache() measures something else", loc(tc.sp))
     r2.floor(4, "cache facts")
 
+    # ---- R5 block allocation limit -----------------------------------------------------------------
+    r5 = ctx.rule("C17.R5", "block allocation limit of push_to_block2: the size tested against max_size_allocated and accumulated in "
+                            "total_allocated_blocks_size is the block's size in bytes in both arms (source_block_length x encoding_symbol_length when the "
+                            "payload id carries the block length, partition::block_length(..) otherwise); the same value is stored as BlockDecoder.block_size "
+                            "and subtracted when the block is released", "value shape + ARG")
+    block_limit_rule(ctx, r5)
+    r5.floor(7, "block limit facts")
+
     # ---- R4 the timeout clock -----------------------------------------------------------------------
     r4 = ctx.rule("C17.R4", "ObjectReceiver.last_activity - the clock Receiver::cleanup measures object_timeout against - is refreshed only "
                             "by a packet of the object: written in ObjectReceiver::new and on ObjectReceiver::push (directly, or in a helper "
@@ -350,3 +358,73 @@ def fdt_retain_rule(ctx, r3, reach=None):
                     else "a usable instance is thrown away"), s.loc)
         if nsc:
             r3.ok(key, "retain predicate decided over %d state/timeout scenarios" % nsc, s.loc)
+
+
+def block_limit_rule(ctx, rule):
+    """the block allocation limit of push_to_block2 accounts in bytes"""
+    from .. import polarity
+    prog = ctx.prog
+    f = prog.fn(OR + "::push_to_block2")
+    ctx.analysed(f.path)
+    sl = Slicer(f.body)
+    fl = Flow(f.body)
+    defs = [(e, bb) for (proj, e, bb) in sl.var_defs().get("block_length", []) if proj == ""]
+    if len(defs) < 2:
+        raise model.AnchorMissing("push_to_block2: %d definitions of block_length" % len(defs))
+    for e, bb in defs:
+        txt = show(e, 200)
+        if "partition::block_length" in txt:
+            rule.ok("push_to_block2 block_length (partition arm)", "partition::block_length(..) bytes", loc(f.sp))
+            continue
+        key = "push_to_block2 block_length (payload-id arm)"
+        facs = []
+        ex = e
+        while ex[0] == "cast":
+            ex = ex[2]
+        if ex[0] == "bin" and ex[1].replace("WithOverflow", "").startswith("Mul"):
+            facs = [re.sub(r" as \w+|[()]", "", show(ex[2])), re.sub(r" as \w+|[()]", "", show(ex[3]))]
+        if sorted(facs) == sorted(["source_block_length", "oti.encoding_symbol_length"]):
+            rule.ok(key, "source_block_length * encoding_symbol_length", loc(f.sp))
+        else:
+            rule.violation(key, "the size of a block announced by the payload id is taken as %s: the allocation limit compares it (and accumulates it) with "
+                                "byte quantities, so anything but symbols x symbol length makes the limit wrong by that factor" % txt[:80], loc(f.sp))
+    # the comparison and the accumulation use that value
+    cmp_ok = False
+    for blk in f.body.blocks:
+        if blk.term.k == "switch":
+            d = show(sl.x.operand(blk.term.discr), 200)
+            if re.search(r"self\.total_allocated_blocks_size \+ block_length\) > self\.max_size_allocated", d) or \
+                    re.search(r"self\.max_size_allocated < \(self\.total_allocated_blocks_size \+ block_length", d):
+                cmp_ok = True
+    if cmp_ok:
+        rule.ok("push_to_block2 limit test", "total_allocated_blocks_size + block_length > max_size_allocated", loc(f.sp))
+    else:
+        rule.violation("push_to_block2 limit test", "no comparison of total_allocated_blocks_size + block_length with max_size_allocated found", loc(f.sp))
+    for a in field_accesses(prog, OR, "total_allocated_blocks_size"):
+        if a["kind"] != "assign":
+            continue
+        caller = a["func"].root().path.split("::")[-1]
+        v = a["value"]
+        key = "%s updates total_allocated_blocks_size" % caller
+        form, c0 = polarity.affine(v)
+        if caller == "push_to_block2" and form == {"self.total_allocated_blocks_size": 1, "block_length": 1} and c0 == 0:
+            rule.ok(key, "+= block_length", loc(a["sp"]))
+        elif v[0] == "bin" and v[1].replace("WithOverflow", "").startswith("Sub") and show(v[2]) == "self.total_allocated_blocks_size" and re.search(r"block\)?\.block_size$|block_size$", show(v[3])):
+            rule.ok(key, "-= block.block_size", loc(a["sp"]))
+        else:
+            rule.violation(key, "total_allocated_blocks_size = %s" % show(v, 80), loc(a["sp"]))
+    # what BlockDecoder remembers as its size is the same value
+    bi = prog.fn("receiver::blockdecoder::BlockDecoder::init")
+    for a in field_accesses(prog, "receiver::blockdecoder::BlockDecoder", "block_size", funcs=[bi]):
+        if a["kind"] == "assign":
+            # the 4th parameter of init (after self, oti, source_block_length), whatever it is called
+            pname = bi.body.names.get(4)
+            if show(a["value"]) == pname:
+                rule.ok("BlockDecoder::init block_size", "= %s (the byte size passed by push_to_block2)" % pname, loc(a["sp"]))
+            else:
+                rule.violation("BlockDecoder::init block_size", "block_size = %s, not the block_length that was accounted" % show(a["value"], 60), loc(a["sp"]))
+    for s in call_sites(f, lambda p, c: p.endswith("BlockDecoder::init")):
+        if show(s.expr[2][3]) == "block_length":
+            rule.ok("push_to_block2 -> BlockDecoder::init(block_length)", "", s.loc)
+        else:
+            rule.violation("push_to_block2 -> BlockDecoder::init(block_length)", "passes %s" % show(s.expr[2][3], 60), s.loc)
